@@ -151,6 +151,8 @@ def broken_rules(doc):
                 out.append("type-or-empty:run.%s" % k)
         nm = s.get("name")
         if isinstance(nm, str):
+            if nm == "_source":
+                out.append("reserved-step-name")        # the root the study graph adds itself
             if nm in names:
                 out.append("duplicate-step-name")
             deps = run.get("depends", [])
@@ -254,6 +256,8 @@ def broken_rules(doc):
         for src in sources:
             if isinstance(src, str) and not re.search(r"\w", src):
                 out.append("empty:source")
+            elif not isinstance(src, str):
+                out.append("type:env.sources.item")     # a validator rule since the schema repair
     elif "sources" in env:
         out.append("type:env.sources")
     return out
